@@ -71,7 +71,7 @@ pub static NO_NEST: std::sync::atomic::AtomicBool = std::sync::atomic::AtomicBoo
 /// callbacks that found no operation context on their thread
 pub static NOCTX_CALLBACKS: std::sync::atomic::AtomicU64 = std::sync::atomic::AtomicU64::new(0);
 
-thread_local! {
+crate::tls! {
     /// the slot whose operation is executing on this thread (target of re-entrant calls)
     pub static CUR_SLOT: std::cell::Cell<Option<*const (dyn crate::slots::Slot + 'static)>> = const { std::cell::Cell::new(None) };
     pub static OPCTX: RefCell<Option<OpCtx>> = const { RefCell::new(None) };
